@@ -39,7 +39,8 @@ register("C04", {
             "2-5 callers, 1-3 origins, failures, scope/deadline cancellations, keep-alive "
             "evictions and slow closes; invariant evaluated after every task step / "
             "scheduler decision; non-trivial = >=2 callers or a fault fired; distinct = "
-            "distinct event-log digest",
+            "distinct event-log digest; plus the 'evictor' sweep: a request whose arrival "
+            "pass evicts 2-3 expired connections at once, cancelled at every suspension point",
     "assumptions": ["ownership of a stream = reachability from pool.connections by a "
                     "generic object-graph walk", "a stream whose close has been initiated, "
                     "or whose connection has been evicted from the pool, is exempt (as the "
